@@ -347,6 +347,25 @@ Section Keystore.
     destruct (split_tail c (tag K nonce c) Ht) as [-> ->]. reflexivity.
   Qed.
 
+  (* ---- repeated attempts on the same stored buffer ---- *)
+  (* Decrypt only reads its input: whatever was tried before (right or wrong passwords, in any
+     number and order), every attempt answers what Decrypt answers on the stored bytes, and
+     the stored bytes are still there afterwards *)
+  Lemma attempts_fresh buf pws :
+    attempts cipher DstFresh buf pws = (map (fun pw => decrypt cipher pw buf) pws, buf).
+  Proof.
+    induction pws as [|pw rest IH]; [reflexivity|].
+    cbn [attempts decrypt_buf map]. rewrite IH. reflexivity.
+  Qed.
+
+  Lemma attempts_then_right pw nonce msg ct pws :
+    encrypt cipher pw nonce msg = Ok ct ->
+    exists rs, attempts cipher DstFresh ct (pws ++ [pw]) = (rs ++ [Ok msg], ct) /\ length rs = length pws.
+  Proof.
+    intro H. rewrite attempts_fresh, map_app. cbn [map]. rewrite (decrypt_encrypt _ _ _ _ H).
+    eexists. split; [reflexivity | apply map_length].
+  Qed.
+
   (* ---- private keys ---- *)
   Lemma be_bytes_be_val (b : list byte) : be_bytes (length b) (be_val b) = b.
   Proof.
